@@ -516,6 +516,31 @@ fn run_c15(sc: &Scenario, keep_log: bool) -> (Vec<Violation>, Outcome) {
                     let stores = matches!(info.kind, Kind::Set | Kind::Add | Kind::Replace | Kind::Append | Kind::Prepend | Kind::Incr | Kind::Decr);
                     // (only for commands that went through the policy layer: they change the counter or the content)
                     let went_through = acc_now != acc_prev || now.stored_bytes != prev.stored_bytes;
+                    // the sweep's arithmetic, exactly, for a plain store: every bystander record that
+                    // vanished was evicted and must have been subtracted with its full Record::len()
+                    // (the addressed key's own old record may have been a victim as well); if the store
+                    // ran empty the counter restarts at the record written
+                    if info.kind == Kind::Set && f.req.cas == 0 && st == status::OK && !stored_before.is_empty() {
+                        let added = 24 + f.req.value.len() as u64;
+                        let mut evicted = 0u64;
+                        let mut n_evicted = 0u64;
+                        for (k, b) in all_keys.iter().zip(stored_before.iter()) {
+                            if *k != f.req.key && b.is_some() && d.exec.record_len(k).is_none() {
+                                evicted += b.unwrap();
+                                n_evicted += 1;
+                            }
+                        }
+                        let own_old = before_len[0].unwrap_or(0);
+                        let a = acc_prev + added;
+                        let ok = acc_now == a.saturating_sub(evicted) || acc_now == a.saturating_sub(evicted + own_old) || (now.items == 1 && acc_now == added);
+                        if !ok && n_evicted > 0 && prev.items as usize <= all_keys.len() && seen_sigs.insert("drift:eviction-subtracts-wrong-amount") {
+                            viols.push(Violation::new(
+                                "C15",
+                                "drift:eviction-subtracts-wrong-amount",
+                                format!("a Set that started with the accounted usage {} above the limit {} evicted {} record(s) of {} bytes in all and wrote {} bytes: the accounted usage should be {} (or {} if its own old record of {} bytes was evicted too) but is {}", acc_prev, limit, n_evicted, evicted, added, a.saturating_sub(evicted), a.saturating_sub(evicted + own_old), own_old, acc_now),
+                            ));
+                        }
+                    }
                     if stores && st == status::OK && went_through {
                         if let Some(l) = d.exec.record_len(&f.req.key) {
                             if acc_now > limit.saturating_add(l) && seen_sigs.insert("sweep-leaves-usage-over-limit") {
